@@ -612,6 +612,7 @@ func cmdCheck(args []string) int {
 	covers := 0
 	var solverTime float64
 	bySolver := map[string]int{}
+	dischargedBy := map[string]string{}
 	var known []string
 	var samples []interface{}
 	var failedNames []string
@@ -629,6 +630,7 @@ func cmdCheck(args []string) int {
 			claimed++
 			discharged++
 			bySolver[r.Res.Solver]++
+			dischargedBy[r.Ob.Name] = fmt.Sprintf("%s %.2fs", r.Res.Solver, r.Res.Seconds)
 			if len(samples) < 5 && !r.Ob.Goal.IsTrue() && (len(samples) < 2 || r.Ob.Kind == "post") {
 				samples = append(samples, map[string]interface{}{"obligation": r.Ob.Name, "kind": r.Ob.Kind, "clause": r.Ob.Text, "at": r.Ob.Pos,
 					"solver": r.Res.Solver, "seconds": r.Res.Seconds, "smt_goal": clip(termString(Not(r.Ob.Goal)), 600)})
@@ -717,6 +719,7 @@ func cmdCheck(args []string) int {
 			"trusted_base":             baseTrusted,
 			"functions_under_contract": uinfos,
 			"by_solver":                bySolver,
+			"discharged_by":            dischargedBy,
 			"solver_time_s":            solverTime,
 			"load_s":                   tLoad,
 			"vcgen_s":                  tGen,
